@@ -181,17 +181,12 @@ class AcAbilityDecoder(
             )
 
         # Otherwise decode ability information for one or more ACs:
-        if header.message_length % _STRUCT.size != 0:
-            raise comms.DecodeError(
-                f"Data length ({header.message_length}) is not a multiple of "
-                f"AC Ability information length ({_STRUCT.size})"
-            )
-
         ac_abilities: list[AcAbility] = []
-        for _ in range(header.message_length // _STRUCT.size):
+        remaining_length = header.message_length
+        while remaining_length > 0:
             (
                 ac_number,
-                _,  # Following length
+                following_length,
                 ac_name_raw,
                 start_zone,
                 zone_count,
@@ -202,7 +197,14 @@ class AcAbilityDecoder(
                 min_heat_set_point,
                 max_heat_set_point,
             ) = _STRUCT.unpack_from(buffer)
-            buffer = buffer[_STRUCT.size :]
+            # The record ends after the following length; skip any unknown extra bytes.
+            record_length = 2 + following_length
+            if record_length < _STRUCT.size or record_length > remaining_length:
+                raise comms.DecodeError(
+                    f"Invalid AC Ability following length: {following_length}"
+                )
+            buffer = buffer[record_length:]
+            remaining_length -= record_length
 
             ac_abilities.append(
                 AcAbility(
